@@ -134,6 +134,11 @@ class Report(object):
                 unknown.append(v)
         os.makedirs(os.path.join(OUTDIR, 'replays'), exist_ok=True)
         for v in unknown[:MAXV]:
+            if isinstance(v.case, dict) and v.case.get('_session'):
+                v.case = shrink_session('vp.checks.%s' % self.prop.lower(), 'run_case', v.case, v.sig)
+                if v.case.get('_session'):
+                    v.msg += ' [only after %d earlier case(s) in the same process: %s]' % (
+                        len(v.case['_session']), short(v.case['_session'][-1], 160))
             h = hashlib.sha1(v.sig.encode()).hexdigest()[:10]
             path = os.path.join(OUTDIR, 'replays', '%s-%s.json' % (self.prop, h))
             with open(path, 'w') as fh:
@@ -189,9 +194,14 @@ def _call_chunk(args):
     mod = importlib.import_module(modname)
     fn = getattr(mod, fname)
     out = []
-    for case in chunk:
+    for idx, case in enumerate(chunk):
         try:
-            out.append(fn(case))
+            res = fn(case)
+            if idx and isinstance(res, dict) and res.get('viol') and isinstance(res.get('case'), dict):
+                # the cases of a chunk run one after the other in one (freshly forked) process: whatever the library
+                # keeps between calls is part of the history of this violation, so the history goes into the replay
+                res['case'] = dict(res['case'], _session=list(chunk[:idx]))
+            out.append(res)
         except HarnessError:
             raise
         except BaseException as exc:
@@ -209,6 +219,43 @@ def _call_chunk(args):
             # a crash of the harness itself
             raise HarnessError('harness crashed on case %s:\n%s' % (short(case), traceback.format_exc()))
     return out
+
+
+def _call_session(args):
+    modname, fname, cases = args
+    fn = getattr(importlib.import_module(modname), fname)
+    res = None
+    for c in cases:
+        res = fn(c)
+    return res
+
+
+def run_isolated(modname, fname, cases):
+    """Run fn over `cases` one after the other in one freshly forked process; the result of the last one."""
+    ctx = multiprocessing.get_context('fork')
+    with ctx.Pool(1, maxtasksperchild=1) as pool:
+        return pool.apply(_call_session, ((modname, fname, list(cases)),))
+
+
+def shrink_session(modname, fname, case, sig):
+    """`case` violated `sig` after the cases in case['_session'] had run in the same process.  Find the shortest history
+    that still shows it: the case alone, else one earlier case + the case, else the whole recorded history."""
+    session = case.get('_session') or []
+    bare = {k: v for k, v in case.items() if k != '_session'}
+
+    def shows(hist):
+        try:
+            r = run_isolated(modname, fname, hist + [bare])
+        except Exception:
+            return False
+        return any(s == sig for s, _ in (r or {}).get('viol', ()))
+    if shows([]):
+        return bare
+    if len(session) <= 64:
+        for c in reversed(session):
+            if shows([c]):
+                return dict(bare, _session=[c])
+    return case
 
 
 def chunked(it, n):
@@ -232,7 +279,8 @@ def pmap(modname, fname, cases, chunk=200, nproc=None):
                 yield r
         return
     ctx = multiprocessing.get_context('fork')
-    with ctx.Pool(nproc) as pool:
+    # one fresh process per chunk: state that the library keeps between calls cannot leak from one chunk into another
+    with ctx.Pool(nproc, maxtasksperchild=1) as pool:
         for res in pool.imap(_call_chunk, ((modname, fname, ch) for ch in chunked(cases, chunk))):
             for r in res:
                 yield r
